@@ -43,7 +43,8 @@ MfFor(mfd, c)  == {m \in mfd : m.fn = c.fn}
 (* Declarative validity (C04): one base plus a gap-free linked chain of    *)
 (* patches of one record, every container but the newest committed, every  *)
 (* stored hash equal to the payload digest, distinct patch uuids; for the  *)
-(* manifest class the newest container's manifest must exist and match.    *)
+(* manifest class the manifest of the newest committed container must      *)
+(* exist and match.                                                        *)
 (***************************************************************************)
 (* a chain: exactly one base (no predecessor), every other container names as *)
 (* predecessor the patch uuid of a container of the set with a smaller index, *)
@@ -53,9 +54,18 @@ IsChain(F) ==
     /\ \A c \in F : c.prev # NONE => \E d \in F : d.uuid = c.prev /\ d.idx < c.idx
     /\ \A c, d \in F : c # d => c.prev # d.prev
 
-ManifestOK(F, mfd) ==
+(* the latest manifest is the one of the newest *committed* container: an uncommitted   *)
+(* patch on top has none yet (the pinned code looked at the newest container only and so *)
+(* neither checked nor loaded any manifest in that situation: mutant "manifest_of_newest_only") *)
+ManifestHolder(F, newestOnly) ==
     LET n == Newest(F) IN
+    IF Committed(n) \/ Cardinality(F) = 1 \/ newestOnly THEN n
+    ELSE Newest(F \ {n})
+ManifestMatches(F, mfd, newestOnly) ==
+    LET n == ManifestHolder(F, newestOnly) IN
     n.mfu # NONE => \E m \in MfFor(mfd, n) : m.dig = n.mfh
+ManifestOKDecl(F, mfd) == ManifestMatches(F, mfd, FALSE)                                  \* what validity means
+ManifestOK(F, mfd)     == ManifestMatches(F, mfd, Mutant = "manifest_of_newest_only")    \* what _open checks
 
 Valid(F, mfd, cls) ==
     /\ F # {}
@@ -65,7 +75,7 @@ Valid(F, mfd, cls) ==
     /\ \A c, d \in F : c # d => c.uuid # d.uuid
     /\ \A c \in F : c # Newest(F) => Committed(c)
     /\ \A c \in F : Committed(c) => c.hash = c.pd
-    /\ cls = "mf" => ManifestOK(F, mfd)
+    /\ cls = "mf" => ManifestOKDecl(F, mfd)
     /\ cls = "mf" => \A c \in F : c.stub => c = Oldest(F)
 
 (***************************************************************************)
